@@ -35,7 +35,7 @@ package streams
 // Well-formed flows, as package streams/flow builds them: both directions exist, an entry point has a node, nodes and
 // edges are allocated objects and no edge slot is nil.
 //@ ghost func nd(n internaltypes.FlowGraphNodeI) *streamflow.FlowGraphNode = n.(*streamflow.FlowGraphNode)
-//@ ghost func dirOK(d *streamflow.FlowDirection) bool = d != nil && (d.root != nil ==> d.root.node != nil && allocated(d.root.node))
+//@ ghost func dirOK(d *streamflow.FlowDirection) bool = d != nil && (d.root != nil ==> d.root.node != nil && allocated(d.root.node)) && forall(k, string, in(k, d.nodes) ==> d.nodes[k] != nil && allocated(d.nodes[k]))
 //@ ghost func flowOK(f internaltypes.FlowI) bool = ifacenil(f) || (typeis(f, *streamflow.Flow) && fw(f).flowRep != nil && fw(f).contextManager != nil && dirOK(fw(f).request) && dirOK(fw(f).response))
 //@ ghost func nodeArgOK(n internaltypes.FlowGraphNodeI) bool = ifacenil(n) || (typeis(n, *streamflow.FlowGraphNode) && allocated(nd(n)))
 //@ ghost func graphOK() bool = forall(n, *streamflow.FlowGraphNode, allocated(n) ==> forall(k, 0, len(n.edges), n.edges[k] != nil && (n.edges[k].node != nil ==> allocated(n.edges[k].node))))
@@ -53,8 +53,106 @@ package streams
 //@   modifies now, xn, xo, xp, xlen, xpar, drops, fl, flen, actions.Request.Actions, actions.Response.Actions, allof(flowMetricsData.totalFlowExecutionTimeNs), allof(flowMetricsData.totalFlowExecutions), allof(flowMetricsData.requestsThroughFlowsCounter), allof(flowMetricsData.avgFlowExecutionTime)
 //@   allocates ProcessorIO
 //@   on entry do fl[flen] = fw(flow); flen = flen + 1
-//@   ensures[flow-recorded] flen == old(flen) + 1 && fl[old(flen)] == fw(flow)
+//@   ensures[flow-recorded] flen == old(flen) + 1 && fl[old(flen)] == fw(flow) && forall(i, 0, old(flen), fl[i] == old(fl)[i])
+//@   ensures[trace-grows] xlen >= old(xlen)
+//@   ensures[hand-over-node] nodeArgOK(sc)
 //@   ensures[nothing-without-entry] startOf(flow, apiStream, startFromNode) == nil ==> xlen == old(xlen) && err == nil && sc == nil && actions.Request.Actions == old(actions.Request.Actions) && actions.Response.Actions == old(actions.Response.Actions)
 //@   ensures[starts-at-entry] startOf(flow, apiStream, startFromNode) != nil ==> xlen > old(xlen) && xn[old(xlen)] == startOf(flow, apiStream, startFromNode)
 //@   ensures[prefix-kept] forall(i, 0, old(xlen), xn[i] == old(xn)[i] && xo[i] == old(xo)[i] && xp[i] == old(xp)[i])
 //@   ensures[on-path] forall(i, old(xlen) + 1, xlen, old(xlen) <= xp[i] && xp[i] < i && follows(xn[xp[i]], xo[xp[i]], xn[i]))
+
+// ---- orchestration: which flows run, in which order
+//@ devirtall FilterTreeResultI => *FilterResult
+//@ ghost func fres(r internaltypes.FilterTreeResultI) *streamfilter.FilterResult = r.(*streamfilter.FilterResult)
+//@ ghost func listOK(l []internaltypes.FlowI) bool = forall(j, 0, len(l), !ifacenil(l[j]) && flowOK(l[j]))
+//@ ghost func resultOK(r internaltypes.FilterTreeResultI) bool = typeis(r, *streamfilter.FilterResult) && fres(r) != nil && listOK(fres(r).UserFlow.Flow) && listOK(fres(r).SystemFlowStart.Flow) && listOK(fres(r).SystemFlowEnd.Flow)
+// how many flows of a group run: all of them when the group is marked valid, none otherwise
+//@ ghost func cnt(g streamfilter.FlowResult) int = ite(g.FlowValid, len(g.Flow), 0)
+// trusted: cleaning a flow's execution touches only its transactional context, which the walk does not read
+//@ extern Flow.CleanExecution
+//@   modifies nothing
+//@ pure Flow.GetName
+
+// Responses: quota system flows (start group), user flows, system flows (end group) — each group in REVERSE order.
+//@ func (*Stream).executeRes
+//@   prop C04
+//@   opaque follows
+//@   requires s != nil && s.apiStreams != nil && s.metricsData != nil && rmOK(s.resources) && actions != nil && actions.Request != nil && actions.Response != nil && xlen >= 0 && flen >= 0
+//@   requires resultOK(flowsToExecute) && graphOK()
+//@   requires shortCircuit != nil ==> nodeArgOK(shortCircuit.node) && !ifacenil(shortCircuit.flow) && flowOK(shortCircuit.flow)
+//@   modifies now, xn, xo, xp, xlen, xpar, drops, fl, flen, actions.Request.Actions, actions.Response.Actions, allof(flowMetricsData.totalFlowExecutionTimeNs), allof(flowMetricsData.totalFlowExecutions), allof(flowMetricsData.requestsThroughFlowsCounter), allof(flowMetricsData.avgFlowExecutionTime), smapof(regCtx(s.resources).ctx)
+//@   allocates ProcessorIO
+//@   loop 1 modifies now, xn, xo, xp, xlen, xpar, drops, fl, flen, actions.Request.Actions, actions.Response.Actions, allof(flowMetricsData.totalFlowExecutionTimeNs), allof(flowMetricsData.totalFlowExecutions), allof(flowMetricsData.requestsThroughFlowsCounter), allof(flowMetricsData.avgFlowExecutionTime)
+//@   loop 1 invariant[trace-grows] xlen >= old(xlen) && forall(i, 0, old(flen), fl[i] == old(fl)[i])
+//@   loop 2 modifies now, xn, xo, xp, xlen, xpar, drops, fl, flen, actions.Request.Actions, actions.Response.Actions, allof(flowMetricsData.totalFlowExecutionTimeNs), allof(flowMetricsData.totalFlowExecutions), allof(flowMetricsData.requestsThroughFlowsCounter), allof(flowMetricsData.avgFlowExecutionTime)
+//@   loop 2 invariant[trace-grows] xlen >= old(xlen) && forall(i, 0, old(flen), fl[i] == old(fl)[i])
+//@   loop 3 modifies now, xn, xo, xp, xlen, xpar, drops, fl, flen, actions.Request.Actions, actions.Response.Actions, allof(flowMetricsData.totalFlowExecutionTimeNs), allof(flowMetricsData.totalFlowExecutions), allof(flowMetricsData.requestsThroughFlowsCounter), allof(flowMetricsData.avgFlowExecutionTime)
+//@   loop 3 invariant[trace-grows] xlen >= old(xlen) && forall(i, 0, old(flen), fl[i] == old(fl)[i])
+//@   loop 1 invariant[reverse-start-idx] -1 <= flowIndex && flowIndex < len(systemFlows) && xlen >= 0 && flen == old(flen) + (len(systemFlows) - 1 - flowIndex)
+//@   loop 1 invariant[reverse-start] forall(j, flowIndex + 1, len(systemFlows), fl[old(flen) + (len(systemFlows) - 1 - j)] == fw(systemFlows[j]))
+//@   loop 2 invariant[reverse-user-idx] -1 <= flowIndex && flowIndex < len(userFlows) && xlen >= 0 && flen == old(flen) + cnt(fres(flowsToExecute).SystemFlowStart) + (len(userFlows) - 1 - flowIndex)
+//@   loop 2 invariant[reverse-user] forall(j, flowIndex + 1, len(userFlows), fl[old(flen) + cnt(fres(flowsToExecute).SystemFlowStart) + (len(userFlows) - 1 - j)] == fw(userFlows[j]))
+//@   loop 2 invariant[start-kept] forall(j, 0, cnt(fres(flowsToExecute).SystemFlowStart), fl[old(flen) + (cnt(fres(flowsToExecute).SystemFlowStart) - 1 - j)] == fw(fres(flowsToExecute).SystemFlowStart.Flow[j]))
+//@   loop 3 invariant[reverse-end-idx] -1 <= flowIndex && flowIndex < len(systemFlows) && xlen >= 0 && flen == old(flen) + cnt(fres(flowsToExecute).SystemFlowStart) + cnt(fres(flowsToExecute).UserFlow) + (len(systemFlows) - 1 - flowIndex)
+//@   loop 3 invariant[reverse-end] forall(j, flowIndex + 1, len(systemFlows), fl[old(flen) + cnt(fres(flowsToExecute).SystemFlowStart) + cnt(fres(flowsToExecute).UserFlow) + (len(systemFlows) - 1 - j)] == fw(systemFlows[j]))
+//@   loop 3 invariant[start-kept] forall(j, 0, cnt(fres(flowsToExecute).SystemFlowStart), fl[old(flen) + (cnt(fres(flowsToExecute).SystemFlowStart) - 1 - j)] == fw(fres(flowsToExecute).SystemFlowStart.Flow[j]))
+//@   loop 3 invariant[user-kept] forall(j, 0, cnt(fres(flowsToExecute).UserFlow), fl[old(flen) + cnt(fres(flowsToExecute).SystemFlowStart) + (cnt(fres(flowsToExecute).UserFlow) - 1 - j)] == fw(fres(flowsToExecute).UserFlow.Flow[j]))
+//@   ensures[all-run] result == nil ==> flen == old(flen) + cnt(fres(flowsToExecute).SystemFlowStart) + cnt(fres(flowsToExecute).UserFlow) + cnt(fres(flowsToExecute).SystemFlowEnd)
+//@   ensures[reverse-start] result == nil ==> forall(j, 0, cnt(fres(flowsToExecute).SystemFlowStart), fl[old(flen) + (cnt(fres(flowsToExecute).SystemFlowStart) - 1 - j)] == fw(fres(flowsToExecute).SystemFlowStart.Flow[j]))
+//@   ensures[reverse-user] result == nil ==> forall(j, 0, cnt(fres(flowsToExecute).UserFlow), fl[old(flen) + cnt(fres(flowsToExecute).SystemFlowStart) + (cnt(fres(flowsToExecute).UserFlow) - 1 - j)] == fw(fres(flowsToExecute).UserFlow.Flow[j]))
+//@   ensures[reverse-end] result == nil ==> forall(j, 0, cnt(fres(flowsToExecute).SystemFlowEnd), fl[old(flen) + cnt(fres(flowsToExecute).SystemFlowStart) + cnt(fres(flowsToExecute).UserFlow) + (cnt(fres(flowsToExecute).SystemFlowEnd) - 1 - j)] == fw(fres(flowsToExecute).SystemFlowEnd.Flow[j]))
+//@   ensures[trace-grows] xlen >= old(xlen) && flen >= old(flen) && forall(i, 0, old(flen), fl[i] == old(fl)[i])
+
+// metrics only (trusted: touches nothing the walk reads)
+//@ extern flowMetricsData.incrementFlowInvocations
+//@   modifies nothing
+//@ extern flowMetricsData.incrementRequestsThroughFlows
+//@   modifies nothing
+//@ iface APIStreamI.SetType
+//@   modifies nothing
+// the filter tree (its selection is C03's subject) holds the flows BuildFlows built: well-formed ones
+//@ iface FilterTreeI.GetFlow
+//@   modifies nothing
+//@   allocates FilterResult
+//@   ensures result1 ==> resultOK(result0)
+
+// Requests: quota system flows (start group) first, then user flows in order until one answers the request itself,
+// then the system flows of the end group; if a user flow answered, the response side runs next (resuming that flow at
+// the answering processor).
+//@ func (*Stream).executeReq
+//@   prop C04
+//@   opaque follows
+//@   ghostlocal nuser int
+//@   requires s != nil && s.apiStreams != nil && s.metricsData != nil && rmOK(s.resources) && !ifacenil(s.filterTree) && actions != nil && actions.Request != nil && actions.Response != nil && xlen >= 0 && flen >= 0
+//@   requires resultOK(flowsToExecute) && graphOK()
+//@   modifies now, xn, xo, xp, xlen, xpar, drops, fl, flen, actions.Request.Actions, actions.Response.Actions, allof(flowMetricsData.totalFlowExecutionTimeNs), allof(flowMetricsData.totalFlowExecutions), allof(flowMetricsData.requestsThroughFlowsCounter), allof(flowMetricsData.avgFlowExecutionTime), smapof(regCtx(s.resources).ctx)
+//@   allocates ProcessorIO, FilterResult, shortCircuitOperation
+//@   on entry do nuser = 0
+//@   on call executeFlow 2 after do nuser = nuser + 1
+//@   loop 1 modifies now, xn, xo, xp, xlen, xpar, drops, fl, flen, actions.Request.Actions, actions.Response.Actions, allof(flowMetricsData.totalFlowExecutionTimeNs), allof(flowMetricsData.totalFlowExecutions), allof(flowMetricsData.requestsThroughFlowsCounter), allof(flowMetricsData.avgFlowExecutionTime)
+//@   loop 1 invariant[prefix-kept] xlen >= old(xlen) && forall(i, 0, old(flen), fl[i] == old(fl)[i])
+//@   loop 1 invariant[start-group] xlen >= old(xlen) && nuser == 0 && flen == old(flen) + idx1 && forall(i, 0, idx1, fl[old(flen) + i] == fw(systemStart[i]))
+//@   loop 2 modifies now, xn, xo, xp, xlen, xpar, drops, fl, flen, nuser, actions.Request.Actions, actions.Response.Actions, allof(flowMetricsData.totalFlowExecutionTimeNs), allof(flowMetricsData.totalFlowExecutions), allof(flowMetricsData.requestsThroughFlowsCounter), allof(flowMetricsData.avgFlowExecutionTime)
+//@   loop 2 invariant[prefix-kept] xlen >= old(xlen) && forall(i, 0, old(flen), fl[i] == old(fl)[i])
+//@   loop 2 invariant[user-group] xlen >= old(xlen) && ShortCircuit == nil && nuser == idx2 && flen == old(flen) + cnt(fres(flowsToExecute).SystemFlowStart) + idx2 && forall(i, 0, idx2, fl[old(flen) + cnt(fres(flowsToExecute).SystemFlowStart) + i] == fw(userFlows[i])) && forall(i, 0, cnt(fres(flowsToExecute).SystemFlowStart), fl[old(flen) + i] == fw(fres(flowsToExecute).SystemFlowStart.Flow[i]))
+//@   loop 3 modifies now, xn, xo, xp, xlen, xpar, drops, fl, flen, actions.Request.Actions, actions.Response.Actions, allof(flowMetricsData.totalFlowExecutionTimeNs), allof(flowMetricsData.totalFlowExecutions), allof(flowMetricsData.requestsThroughFlowsCounter), allof(flowMetricsData.avgFlowExecutionTime)
+//@   loop 3 invariant[prefix-kept] xlen >= old(xlen) && forall(i, 0, old(flen), fl[i] == old(fl)[i])
+//@   loop 3 invariant[end-group] xlen >= old(xlen) && 0 <= nuser && nuser <= cnt(fres(flowsToExecute).UserFlow) && flen == old(flen) + cnt(fres(flowsToExecute).SystemFlowStart) + nuser + idx3 && forall(i, 0, idx3, fl[old(flen) + cnt(fres(flowsToExecute).SystemFlowStart) + nuser + i] == fw(systemFlowEnd[i])) && forall(i, 0, cnt(fres(flowsToExecute).SystemFlowStart), fl[old(flen) + i] == fw(fres(flowsToExecute).SystemFlowStart.Flow[i])) && forall(i, 0, nuser, fl[old(flen) + cnt(fres(flowsToExecute).SystemFlowStart) + i] == fw(fres(flowsToExecute).UserFlow.Flow[i]))
+//@   ensures[start-group-first] result == nil ==> flen >= old(flen) + cnt(fres(flowsToExecute).SystemFlowStart) && forall(i, 0, cnt(fres(flowsToExecute).SystemFlowStart), fl[old(flen) + i] == fw(fres(flowsToExecute).SystemFlowStart.Flow[i]))
+//@   ensures[user-flows-in-order] result == nil ==> 0 <= nuser && nuser <= cnt(fres(flowsToExecute).UserFlow) && forall(i, 0, nuser, fl[old(flen) + cnt(fres(flowsToExecute).SystemFlowStart) + i] == fw(fres(flowsToExecute).UserFlow.Flow[i]))
+//@   ensures[all-user-flows-unless-answered] result == nil && ShortCircuit == nil ==> nuser == cnt(fres(flowsToExecute).UserFlow)
+//@   ensures[end-group-last] result == nil ==> flen >= old(flen) + cnt(fres(flowsToExecute).SystemFlowStart) + nuser + cnt(fres(flowsToExecute).SystemFlowEnd) && forall(i, 0, cnt(fres(flowsToExecute).SystemFlowEnd), fl[old(flen) + cnt(fres(flowsToExecute).SystemFlowStart) + nuser + i] == fw(fres(flowsToExecute).SystemFlowEnd.Flow[i]))
+//@   ensures[no-response-side-unless-answered] result == nil && ShortCircuit == nil ==> flen == old(flen) + cnt(fres(flowsToExecute).SystemFlowStart) + nuser + cnt(fres(flowsToExecute).SystemFlowEnd)
+//@   ensures[trace-grows] xlen >= old(xlen) && flen >= old(flen) && forall(i, 0, old(flen), fl[i] == old(fl)[i])
+
+// Entry point for one transaction: when the filter tree selects no flow nothing at all is executed and no action is
+// produced (C03's pass-through clause); otherwise the request or the response orchestration runs on the selected flows.
+//@ func (*Stream).ExecuteFlow
+//@   prop C04, C03
+//@   opaque follows
+//@   requires s != nil && s.metricsData != nil && s.metricsData.procMetricsData != nil && rmOK(s.resources) && !ifacenil(s.filterTree) && actions != nil && actions.Request != nil && actions.Response != nil && xlen >= 0 && flen >= 0
+//@   requires graphOK()
+//@   modifies s.apiStreams, now, xn, xo, xp, xlen, xpar, drops, fl, flen, actions.Request.Actions, actions.Response.Actions, allof(flowMetricsData.totalFlowExecutionTimeNs), allof(flowMetricsData.totalFlowExecutions), allof(flowMetricsData.requestsThroughFlowsCounter), allof(flowMetricsData.avgFlowExecutionTime), smapof(regCtx(s.resources).ctx)
+//@   allocates ProcessorIO, FilterResult, shortCircuitOperation, Stream, RequestStream, ResponseStream
+//@   ensures[no-match-passes-through] !found ==> result == nil && flen == old(flen) && xlen == old(xlen) && actions.Request.Actions == old(actions.Request.Actions) && actions.Response.Actions == old(actions.Response.Actions)
+//@   ensures[trace-grows] xlen >= old(xlen) && flen >= old(flen) && forall(i, 0, old(flen), fl[i] == old(fl)[i])
